@@ -75,6 +75,10 @@ def go_test(ctx, module, pkg, overlay, run, env=None, timeout=600, race=False, e
     ov = {"Replace": {}}
     for dst, src in overlay.items():
         ov["Replace"][os.path.join(REPO, module, pkg, dst)] = os.path.join(VERIF, "harness", "go", src)
+    extra = os.environ.get("VERIF_EXTRA_OVERLAY")
+    if extra:
+        # self-test hook: run a check against a mutated copy of a source file without touching /repo
+        ov["Replace"].update(json.load(open(extra)).get("Replace", {}))
     ovp = ctx.path("overlay_%s.json" % hashlib.sha1((module + pkg + run).encode()).hexdigest()[:8])
     with open(ovp, "w") as f:
         json.dump(ov, f)
